@@ -119,6 +119,9 @@ def run_fonts(report, n, rng):
                 x, y, w, h = 5 + 22 * j, 10 + 13 * k + 7 * j, 12 + 3 * j + k, 9 + 2 * k + 5 * j  # distinct outlines: no reuse
                 op = rng.choice([1.0, 1.0, 0.5, 0.25, 0.9, 0.1])  # 0.5, 0.9, 0.1: alpha x 255 ends in .5 (rounded, not cut)
                 r = rng.random()
+                force_hex = k == 0 and j == 0 and not fmt.endswith("_0")  # always: a colour with its own alpha under a shape opacity
+                if force_hex:
+                    op, r = 0.5, 0.3
                 if not fmt.endswith("_0") and r < 0.25:
                     # a linear gradient whose stops declare palette indices (opaque, so one member per stop)
                     stops = []
@@ -145,6 +148,14 @@ def run_fonts(report, n, rng):
                     continue
                 if r < 0.1:
                     fill, rgb, idx = "currentColor", "current", None
+                elif (force_hex or r < 0.32) and not fmt.endswith("_0"):
+                    # the colour itself carries an alpha (#RRGGBBAA): it multiplies with the shape's opacity
+                    c = rng.choice(list(RGB))
+                    aa = rng.choice([0x80, 0x40, 0xC0])
+                    fill, rgb, idx = "#%02x%02x%02x%02x" % (RGB[c] + (aa,)), RGB[c], None
+                    shapes.append(f'<path d="M{x},{y} L{x + w},{y} L{x + w},{y + h} L{x},{y + h} Z" fill="{fill}"' + (f' opacity="{op}"' if op != 1.0 else "") + "/>")
+                    exp.append((rgb, op * aa / 255, idx))
+                    continue
                 elif r < 0.45:
                     c = rng.choice(list(RGB))
                     fill, rgb, idx = c, RGB[c], None
